@@ -16,6 +16,7 @@ import traceback
 from dataclasses import dataclass, field
 
 ROOT = os.path.dirname(os.path.dirname(os.path.abspath(__file__)))
+OUT = os.environ.get('VERIF_OUT', ROOT)       # evidence/ and replay/ go here (seedtest redirects them)
 NSHARDS = int(os.environ.get('VERIF_SHARDS', '16'))
 
 
@@ -373,7 +374,7 @@ def run_property(pid, tier, seed):
                 kf = k
                 break
         safe_b = ''.join(c if c.isalnum() or c in '-_.' else '_' for c in b)[:80]
-        path = os.path.join(ROOT, 'replay', '%s-%s.json' % (pid, safe_b))
+        path = os.path.join(OUT, 'replay', '%s-%s.json' % (pid, safe_b))
         write_json(path, {'property': pid, 'bucket': b, 'msg': msg, 'case': case, 'note': note,
                           'seed': seed, 'tier': tier, 'count': f['count']})
         if kf is not None:
@@ -418,7 +419,7 @@ def run_property(pid, tier, seed):
     }
     if enum_info and 'coverage' in enum_info:
         evidence['coverage'].update(enum_info['coverage'])
-    write_json(os.path.join(ROOT, 'evidence', pid + '.json'), evidence)
+    write_json(os.path.join(OUT, 'evidence', pid + '.json'), evidence)
 
     for ln in out_lines:
         print(ln)
